@@ -2,6 +2,7 @@
 #include <string>
 #include <AIToolbox/Factored/MDP/Algorithms/CooperativeQLearning.hpp>
 #include <AIToolbox/Factored/MDP/Algorithms/JointActionLearner.hpp>
+#include <AIToolbox/Factored/MDP/Algorithms/SparseCooperativeQLearning.hpp>
 #include <AIToolbox/MDP/Algorithms/QLearning.hpp>
 #include "vio.hpp"
 using namespace AIToolbox::Factored;
@@ -56,6 +57,36 @@ bool learnCase(const std::string & kind, vio::Cursor & c, vio::Out & o) {
             flat.stepUpdateQ(toIndex(S, s), toIndex(A, a), toIndex(S, s1), rew.sum());
             o.list(a1);
             for (auto & b : cq.getQFunction().bases) outMat(o, b.values);
+        }
+        outMat(o, flat.getQFunction());
+        return true;
+    }
+    if (kind == "sparse") {         // S A nrules {sk sv ak av val}* discount alpha n {s a s1 rew}*
+        State S = readF(c); Action A = readF(c);
+        std::vector<MDP::QFunctionRule> rules(c.nextSize());
+        for (auto & r : rules) {
+            r.state.first = readF(c); r.state.second = readF(c);
+            r.action.first = readF(c); r.action.second = readF(c);
+            r.value = c.nextDouble();
+        }
+        double discount = c.nextDouble(), alpha = c.nextDouble();
+        MDP::SparseCooperativeQLearning sq(S, A, rules, discount, alpha);
+        AIToolbox::MDP::QLearning flat(factorSpace(S), factorSpace(A), discount, alpha);
+        if (rules.size() == factorSpace(S) * factorSpace(A)) {   // table-shaped rule set: same start values
+            AIToolbox::MDP::QFunction q0(factorSpace(S), factorSpace(A));
+            for (size_t r = 0; r < rules.size(); ++r) q0(r / factorSpace(A), r % factorSpace(A)) = rules[r].value;
+            flat.setQFunction(q0);
+        }
+        size_t n = c.nextSize();
+        for (size_t i = 0; i < n; ++i) {
+            State s = readF(c); Action a = readF(c); State s1 = readF(c);
+            auto rv = c.nextDoubles(); AIToolbox::Vector rew(rv.size());
+            for (size_t k = 0; k < rv.size(); ++k) rew[k] = rv[k];
+            Action a1 = sq.stepUpdateQ(s, a, s1, rew);
+            flat.stepUpdateQ(toIndex(S, s), toIndex(A, a), toIndex(S, s1), rew.sum());
+            o.list(a1);
+            o << sq.getQFunctionRules().size();
+            for (const auto & r : sq.getQFunctionRules()) o << r.value;
         }
         outMat(o, flat.getQFunction());
         return true;
